@@ -110,7 +110,7 @@ func init() {
 		Rule: "seeded generator of well-typed terminating programs over loop/while/for with labelled and unlabelled break/continue, return, throw, do/catch (literal and typed patterns)/finally, defer, if/else, && || ?? with side-effecting operands (markers print on evaluation), functions; every statement prints a unique marker; the printed trace is compared with a reference interpreter; failing programs are delta-minimised and named by the shape of the minimal program; distinct = program shapes",
 		NumCases: func(tier string) int {
 			if tier == "thorough" {
-				return 80000
+				return 30000
 			}
 			return 5000
 		},
@@ -125,7 +125,7 @@ func init() {
 		Rule: "seeded generator of programs building nested closures (depth <= 3) that capture locals, parameters, loop variables and other closures, read and write them, are called before and after the defining frame/iteration ends, inside functions and loops; the printed trace is compared with a reference interpreter with one shared cell per captured variable per activation; failing programs are delta-minimised; distinct = program shapes",
 		NumCases: func(tier string) int {
 			if tier == "thorough" {
-				return 80000
+				return 30000
 			}
 			return 5000
 		},
